@@ -98,6 +98,10 @@ impl PayloadEncode for &UdpDatagram {
 
     #[inline]
     fn wire_valid(&self) -> Result<(), InvalidStructureError> {
+        // The UDP length field is 16 bits wide and covers header and payload.
+        if UdpDatagramLayout::HEADER_SIZE_BYTES + self.payload.len() > u16::MAX as usize {
+            return Err("UDP datagram size exceeds maximum encodeable value of 65535 bytes".into());
+        }
         Ok(())
     }
 
